@@ -49,8 +49,18 @@ func optionVariants(need prog.Options, idx int64) []prog.Options {
 
 // checkOne runs one program under one option vector on both sides.
 func checkOne(p prog.Program, o prog.Options, st *fw.Stats) (src string, diff string) {
+	return checkOneAnnounced(p, o, st, nil)
+}
+
+// announce, if non-nil, is told the rendered source before anything is
+// executed (so that a process death is attributed to the program); if it
+// returns false the program is not executed.
+func checkOneAnnounced(p prog.Program, o prog.Options, st *fw.Stats, announce func(src string) bool) (src string, diff string) {
 	tree := p.Instantiate()
 	src = prog.Render(tree)
+	if announce != nil && !announce(src) {
+		return src, ""
+	}
 	prod := prog.RunProd(src, o)
 	st.Evals++
 	if prod.Static {
@@ -123,7 +133,11 @@ func worker(c *fw.Ctx) *fw.Stats {
 					variants = append(variants, n)
 				}
 				for _, o := range variants {
-					src, diff := checkOne(p, o, st)
+					o := o
+					src, diff := checkOneAnnounced(p, o, st, func(src string) bool {
+						kb, _ := json.Marshal(kase{Profile: p.Profile, Level: level, Index: idx, Opts: o, Src: src})
+						return c.Risky(string(kb))
+					})
 					if idx%50021 == 0 && o == p.Need {
 						st.Sample(map[string]any{"profile": p.Profile, "level": level, "options": o.String(), "source": src})
 					}
@@ -151,7 +165,23 @@ func worker(c *fw.Ctx) *fw.Stats {
 	return st
 }
 
-func run(c *fw.Ctx) *fw.Stats { return c.Sharded(0, nil) }
+// A program that kills the worker process (a fatal Go error such as a stack
+// overflow cannot be recovered) is attributed to the program that was
+// running; the shard restarts after it.
+func run(c *fw.Ctx) *fw.Stats {
+	return c.Sharded(0, func(ci fw.CrashInfo, st *fw.Stats) {
+		var k kase
+		if json.Unmarshal([]byte(ci.Key), &k) != nil {
+			fw.Fatal("worker %d died outside any program: %s", ci.Shard, ci.Stderr)
+		}
+		first := ci.Stderr
+		if len(first) > 300 {
+			first = first[:300]
+		}
+		st.Violate(fmt.Sprintf("%s/L%d/#%d/%s", k.Profile, k.Level, k.Index, k.Opts.String()),
+			"process death while the production pipeline or the reference ran this program (the reference evaluator only walks the tree, so this is the production side): "+first+" | program: "+k.Src, k)
+	})
+}
 
 func replay(c *fw.Ctx, raw json.RawMessage) []fw.Viol {
 	var k kase
@@ -188,7 +218,7 @@ func init() {
 	fw.Register(&fw.Prop{
 		ID:    "C01",
 		Level: "exploration",
-		Rule: "every program of each grammar profile (expr, plus, assign, control, scope, call, load, comp) of size level n, n = 1, 2, ... (iterative deepening), " +
+		Rule: "every program of each grammar profile (expr, plus, assign, control, scope, call, load, comp, fold, escape) of size level n, n = 1, 2, ... (iterative deepening), " +
 			"rendered to source and executed by the production pipeline and by the reference evaluator under the needed options, all options on, and (every 64th) all 16 combinations of set/while/recursion/top-level control; " +
 			"compared: probe trace with argument values, final globals with aliasing, success/failure and the position of the failing operation; " +
 			"non-trivial = program runs in which at least one probe fired or the program failed",
